@@ -94,6 +94,10 @@ void QXmppIq::parseElementFromChild(const QDomElement &element)
     QXmppElementList extensions;
 
     for (const auto &itemElement : iterChildElements(element)) {
+        // the <error/> element is parsed and serialized by QXmppStanza
+        if (itemElement.tagName() == u"error") {
+            continue;
+        }
         extensions.append(QXmppElement(itemElement));
     }
     setExtensions(extensions);
